@@ -10,6 +10,7 @@
  7 if BROKEN: deeper search for a failing input
  8 classify against known_findings.json, write evidence, VIOLATION lines, exit code
 """
+import glob
 import argparse, importlib, json, os, sys, time, traceback
 
 sys.path.insert(0, os.path.dirname(os.path.abspath(__file__)))
@@ -55,6 +56,11 @@ def main():
     except Exception as e:
         print("note: fingerprint comparison unavailable:", repr(e))
     os.makedirs(C.REPLAY, exist_ok=True)
+    for old_replay in glob.glob(f"{C.REPLAY}/{prop}-*.json"):      # replay files of an earlier run say nothing about this one
+        try:
+            os.remove(old_replay)
+        except OSError:
+            pass
     os.makedirs(f"{C.ROOT}/evidence", exist_ok=True)
     broken = []          # (what, detail)
     discharged = 0
